@@ -238,6 +238,8 @@ static KSI_CTX *ctx;
 static KSI_Signature *g_sig;
 static KSI_Rule g_rules[MAXLIST][MAXLEAF + 1];
 static KSI_Policy *g_pol[MAXPOL];
+static KSI_Policy *g_clone;     /* KSI_Policy_clone of the chain head, taken after the fallbacks were set */
+static KSI_Policy *g_entry;     /* the policy object handed to the verifier in the current pass */
 
 static void build_policies(void) {
 	int li, i, p;
@@ -256,10 +258,14 @@ static void build_policies(void) {
 	}
 	for (p = 0; p + 1 < g_npol; p++)
 		if (KSI_Policy_setFallback(ctx, g_pol[p], g_pol[p + 1]) != KSI_OK) vf_harness_error("KSI_Policy_setFallback failed");
+	g_clone = NULL;
+	if (KSI_Policy_clone(ctx, g_pol[0], &g_clone) != KSI_OK || g_clone == NULL) vf_harness_error("KSI_Policy_clone failed");
+	g_entry = g_pol[0];
 }
 static void free_policies(void) {
 	int p;
 	for (p = 0; p < g_npol; p++) { KSI_Policy_free(g_pol[p]); g_pol[p] = NULL; }
+	KSI_Policy_free(g_clone); g_clone = NULL; g_entry = NULL;
 }
 
 static const char *fmt_trace(const int *t, int n) {
@@ -315,7 +321,7 @@ static void execute(const char *part, KSI_VerificationContext *vc) {
 	int rc, i, same, last;
 	ref_verify(&x);
 	i_n = 0;
-	rc = KSI_SignatureVerifier_verify(g_pol[0], vc, &res);
+	rc = KSI_SignatureVerifier_verify(g_entry, vc, &res);
 	c_exec++;
 	c_inv += i_n;
 	c_flags |= r_flags;
@@ -388,7 +394,7 @@ static void execute(const char *part, KSI_VerificationContext *vc) {
 /* all reachable outcome assignments of the current tree / chain: depth-first over choice sequences */
 static void explore(const char *part, const char *text, int nout, int use_sig) {
 	KSI_VerificationContext vc;
-	int k;
+	int k, pass;
 	unsigned f;
 	parse_chain(text);
 	build_policies();
@@ -398,18 +404,26 @@ static void explore(const char *part, const char *text, int nout, int use_sig) {
 	c_exec = c_inv = c_fails = 0;
 	memset(c_byfinal, 0, sizeof c_byfinal);
 	c_hash = 0;
-	g_plan_len = 0;
-	for (;;) {
-		execute(part, &vc);
-		/* next choice sequence: the reference reached choice points 0..r_n-1 */
-		for (k = g_plan_len; k < r_n; k++) g_plan[k] = 0;
-		k = r_n;
-		while (k > 0 && g_plan[k - 1] == nout - 1) k--;
-		if (k == 0) break;
-		g_plan[k - 1]++;
-		g_plan_len = k;
+	/* two passes over all choice sequences: through the created chain head, and through a clone of it (a clone has to
+	 * behave like the original: same rules, same fallback chain, same name) */
+	for (pass = 0; pass < 2; pass++) {
+		char part2[24];
+		snprintf(part2, sizeof part2, "%s%s", part, pass ? "+clone" : "");
+		g_entry = pass ? g_clone : g_pol[0];
+		g_plan_len = 0;
+		for (;;) {
+			execute(part2, &vc);
+			/* next choice sequence: the reference reached choice points 0..r_n-1 */
+			for (k = g_plan_len; k < r_n; k++) g_plan[k] = 0;
+			k = r_n;
+			while (k > 0 && g_plan[k - 1] == nout - 1) k--;
+			if (k == 0) break;
+			g_plan[k - 1]++;
+			g_plan_len = k;
+		}
+		g_plan_len = 0;
 	}
-	g_plan_len = 0;
+	vf_outcome("entry:created-and-cloned");
 	KSI_VerificationContext_clean(&vc);
 	free_policies();
 	if (c_fails > 3) vf_fail(part[0] == 'f' ? "fb-more" : "more", "%ld executions of this case disagree with the reference in total", c_fails);
